@@ -110,6 +110,51 @@ def top(reason: str) -> Term:
     return ("top", reason)
 
 
+# ---------------------------------------------------------------------------
+# Opaque values that SURVIVE into the outcomes of an interpreter run (guards, results, event arguments, heap):
+# results of calls the analyser has no model for, TOP, attributes of unmodelled objects.  Filled by Interp.run;
+# read by Report.finish, which never reports a VIOLATION while the analysis itself was imprecise.
+OPAQUE_SEEN: Dict[str, Tuple[int, str]] = {}
+# markers that occur on the unchanged tree and were read: (kind, name) -> why harmless
+OPAQUE_BENIGN = {
+    "EXTMETH:category": "device_type.category on the path where the model lookup returned None (guarded by `device_type and`)",
+    "EXTMETH:display": "ThermostatMode.display inside the text of the RuntimeError for unsupported modes",
+    "OPQ:self._transports.get": "dict.get on the symbolic port->transport map in SwitcherBridge.stop (the value is only tested for truth and closed)",
+    "RECV:opq:self._transports.get": "the same value as the receiver of .is_closing()/.close() in SwitcherBridge.stop",
+}
+
+
+def opaque_markers(v: Any, acc: set, seen: Optional[set] = None, depth: int = 0) -> None:
+    if seen is None:
+        seen = set()
+    if depth > 80:
+        return
+    if isinstance(v, tuple):
+        if id(v) in seen:
+            return
+        seen.add(id(v))
+        if v and v[0] == "top":
+            acc.add("TOP:" + str(v[1])[:70])
+            return
+        if len(v) >= 2 and v[0] == "sym" and isinstance(v[1], str) and v[1].startswith("opq:"):
+            acc.add("OPQ:" + v[1][4:].split("#")[0][:60])
+            return
+        if len(v) == 3 and v[0] == "extmeth" and isinstance(v[2], str):
+            # a field of a modelled pure value (struct_time.tm_hour, ...) is a projection, not an unknown
+            x = v[1]
+            if not (isinstance(x, tuple) and x[:1] == ("app",) and isinstance(x[1], str) and x[1].startswith(("time.", "datetime."))):
+                acc.add("EXTMETH:" + v[2])
+        for x in v:
+            if isinstance(x, (tuple, Lin, list)):
+                opaque_markers(x, acc, seen, depth + 1)
+    elif isinstance(v, Lin):
+        for t in v.coef:
+            opaque_markers(t, acc, seen, depth + 1)
+    elif isinstance(v, list):
+        for x in v:
+            opaque_markers(x, acc, seen, depth + 1)
+
+
 def is_top(v: Any) -> bool:
     return isinstance(v, tuple) and len(v) > 0 and v[0] == "top"
 
